@@ -4,7 +4,16 @@
 
 package msg
 
+//@ type storedMessages
+//@   field logger config
+//@   field messageCountPerSender immutable_after getOrCreateMessagesByTopic
+//@   field lastUsed, messages, messageCountPerSender[] guarded_by lock
+//@
 //@ type Box
+//@   field currentGCEpochNum, lastGC atomic
+//@   field stopClock, pendingMessages, startedSending, totalInFlightTopicsBySender immutable_after initialize startClock
+//@   field pendingMessages[], startedSending[], totalInFlightTopicsBySender[] guarded_by lock
+//@   field MessageHandler, NewTicker, GCExpire, GCSweep, Logger, ForwardSend, MaxInFlightTopicsBySender config
 //@   invariant [config]    this.Logger != nil && this.MessageHandler != nil && this.NewTicker != nil && this.ForwardSend != nil
 //@   invariant [gc-config] this.GCSweep > 0 && this.GCExpire >= 2*this.GCSweep
 //@
